@@ -291,7 +291,8 @@ pub fn structural_cases() -> Vec<(String, Vec<u8>)> {
             w.obj(n, 0, &v);
         }
     };
-    // /Prev loops of length 1..3 (classic tables and xref streams)
+    // /Prev loops of length 1..3 (classic tables and xref streams): every section's /Prev is written as a
+    // 10-digit placeholder and patched afterwards, so section k points at section (k+1) mod len
     for stream in [false, true] {
         for len in 1..=3usize {
             let mut w = Writer::new(b"", "1.5");
@@ -299,54 +300,19 @@ pub fn structural_cases() -> Vec<(String, Vec<u8>)> {
             let mut offsets = Vec::new();
             for k in 0..len {
                 w.obj(10 + k as u64, 0, &Val::Int(k as i64));
+                w.last_xref = Some(1_999_999_990 + k);
                 let off = if stream { w.xref_stream(20 + k as u64, 30, &[(Bytes::from("Root"), r(1))], false, &[], false) } else { w.xref_table(30, &[(Bytes::from("Root"), r(1))], false) };
                 offsets.push(off);
             }
             let mut file = w.finish();
-            // point the oldest section's (absent) /Prev at the newest: rewrite "/Prev <first>"... the oldest has no /Prev,
-            // so patch the second-oldest's /Prev value (or for len 1 add a self-reference by patching the text)
-            let text = String::from_utf8_lossy(&file).to_string();
-            let newest = *offsets.last().unwrap();
-            let patched = if len == 1 {
-                // add /Prev pointing at itself: replace "/Size 30" (same length keeps offsets valid) is impossible; append an update instead
-                let mut w2 = Writer::append_to(file.clone(), 0, newest);
-                w2.obj(15, 0, &Val::Int(1));
-                let here = w2.off();
-                // this section's /Prev is overridden below to point at itself
-                if stream {
-                    w2.xref_stream(25, 30, &[(Bytes::from("Root"), r(1))], false, &[], false);
-                } else {
-                    w2.xref_table(30, &[(Bytes::from("Root"), r(1))], false);
+            for k in 0..len {
+                let placeholder = format!("{}", 1_999_999_990u64 + k as u64);
+                let target = format!("{:010}", offsets[(k + 1) % len]);
+                if let Some(pos) = file.windows(10).position(|x| x == placeholder.as_bytes()) {
+                    file[pos..pos + 10].copy_from_slice(target.as_bytes());
                 }
-                let f2 = w2.finish();
-                let t2 = String::from_utf8_lossy(&f2).to_string();
-                // replace the last "/Prev <newest>" by "/Prev <here>" padded to equal length when possible
-                let from = format!("/Prev {}", newest);
-                let to = format!("/Prev {}", here);
-                if from.len() == to.len() {
-                    if let Some(pos) = t2.rfind(&from) {
-                        let mut b = f2.clone();
-                        b[pos..pos + to.len()].copy_from_slice(to.as_bytes());
-                        b
-                    } else {
-                        f2
-                    }
-                } else {
-                    f2
-                }
-            } else {
-                // make the oldest section point forward to the newest: the oldest has no /Prev; patch the
-                // second section's "/Prev <oldest>" into "/Prev <newest>" when the digit counts agree
-                let from = format!("/Prev {}", offsets[0]);
-                let to = format!("/Prev {}", newest);
-                if from.len() == to.len() {
-                    if let Some(pos) = text.find(&from) {
-                        file[pos..pos + to.len()].copy_from_slice(to.as_bytes());
-                    }
-                }
-                file
-            };
-            out.push((format!("prev-loop/{}-len{}", if stream { "stream" } else { "table" }, len), patched));
+            }
+            out.push((format!("prev-loop/{}-len{}", if stream { "stream" } else { "table" }, len), file));
         }
     }
     // xref stream with hostile /W, /Index, /Size
@@ -423,6 +389,35 @@ pub fn structural_cases() -> Vec<(String, Vec<u8>)> {
             out.push((format!("nesting/depth{}-kind{}", depth, kind), w.finish()));
         }
     }
+    // ladders: every intermediate node lists the same child twice, 40 levels deep (2^40 root-to-leaf paths in a 6 KB file)
+    for kind in ["names", "numbers"] {
+        let mut w = Writer::new(b"", "1.4");
+        let depth = 40u64;
+        let first = 10u64;
+        let cat = if kind == "names" { d(vec![("Type", n("Catalog")), ("Pages", r(2)), ("Names", d(vec![("Dests", r(first)), ("IDS", r(first))]))]) } else { d(vec![("Type", n("Catalog")), ("Pages", r(2)), ("PageLabels", r(first))]) };
+        w.obj(1, 0, &cat);
+        w.obj(2, 0, &d(vec![("Type", n("Pages")), ("Kids", arr(vec![r(3)])), ("Count", i(1))]));
+        w.obj(3, 0, &d(vec![("Type", n("Page")), ("Parent", r(2)), ("MediaBox", rect(10, 10))]));
+        for k in 0..depth {
+            w.obj(first + k, 0, &d(vec![("Kids", arr(vec![r(first + k + 1), r(first + k + 1)]))]));
+        }
+        let leaf = if kind == "names" { d(vec![("Names", arr(vec![Val::str(b"a"), arr(vec![r(3), n("Fit")])]))]) } else { d(vec![("Nums", arr(vec![i(0), d(vec![("S", n("D"))])]))]) };
+        w.obj(first + depth, 0, &leaf);
+        w.free(0, 0, 65535);
+        w.xref_table(first + depth + 1, &[(Bytes::from("Root"), r(1))], false);
+        out.push((format!("ladder/{}-depth{}", kind, depth), w.finish()));
+    }
+    // the same structures behind a few bytes of junk before the header (offsets are header-relative)
+    let with_prefix: Vec<(String, Vec<u8>)> = out
+        .iter()
+        .filter(|(l, _)| l.starts_with("prev-loop") || l.starts_with("xref-stream") || l.starts_with("objstm"))
+        .map(|(l, f)| {
+            let mut d = b"\xEF\xBB\xBFjunk".to_vec();
+            d.extend_from_slice(f);
+            (format!("prefixed/{}", l), d)
+        })
+        .collect();
+    out.extend(with_prefix);
     out
 }
 
@@ -448,7 +443,7 @@ pub fn run(ctx: &Ctx) {
                     }
                 }
                 SlotKind::Num => {
-                    let take = if ctx.tier == Tier::Quick { 8 } else { nums.len() };
+                    let take = nums.len();
                     for v in nums.iter().take(take) {
                         jobs.push((fi, si, v.clone(), format!("{}:{}={:?}", f.name, path, v)));
                     }
@@ -457,7 +452,7 @@ pub fn run(ctx: &Ctx) {
         }
     }
     // quick: a deterministic third of the single-slot space, rotating with the seed; thorough: all of it
-    let stride: u64 = if ctx.tier == Tier::Quick { 3 } else { 1 };
+    let stride: u64 = 1;
     let phase = ctx.seed % stride;
     let chosen: Vec<&(usize, usize, Val, String)> = jobs.iter().enumerate().filter(|(k, _)| (*k as u64) % stride == phase).map(|(_, j)| j).collect();
     ctx.run_enum(
@@ -545,4 +540,4 @@ pub fn run(ctx: &Ctx) {
     );
 }
 
-pub const RULE: &str = "cases = syntactically valid files written by the harness from 7 typed schema fragments (page tree direct and compressed, name/number trees and outlines, fonts, colour spaces and functions, streams/forms/annotations/fields, encryption dictionary): every reference slot pointed in turn at every object of its fragment, at object 0 and at a missing object; every numeric slot set in turn to each of {-1, 0, 1, 2^31-1, 2^32-1, 2^64-1, -2^31, 65536, 255, 0.5, -1e30, 3.4e38} (quick: first 8 values and a seed-rotated third of the single-slot space; thorough: all); random 2-5 slot combinations; structural cases (/Prev loops of length 1-3, hostile xref-stream /W /Index /Size, object streams lying about N/First or containing/extending themselves, nesting 19/20/21/100/10000 deep); oracle = C01's: the deep walk in a worker process returns from every call, no panic, no abnormal exit, no confirmed time-out, allocation within the proportional bound; non-trivial = the file loaded (typed loading reached the planted structure); distinct by substitution";
+pub const RULE: &str = "cases = syntactically valid files written by the harness from 7 typed schema fragments (page tree direct and compressed, name/number trees and outlines, fonts, colour spaces and functions, streams/forms/annotations/fields, encryption dictionary): every reference slot pointed in turn at every object of its fragment, at object 0 and at a missing object; every numeric slot set in turn to each of {-1, 0, 1, 2^31-1, 2^32-1, 2^64-1, -2^31, 65536, 255, 0.5, -1e30, 3.4e38} (all single-slot substitutions in both tiers); random 2-5 slot combinations; structural cases (/Prev loops of length 1-3, hostile xref-stream /W /Index /Size, object streams lying about N/First or containing/extending themselves, nesting 19/20/21/100/10000 deep); oracle = C01's: the deep walk in a worker process returns from every call, no panic, no abnormal exit, no confirmed time-out, allocation within the proportional bound; non-trivial = the file loaded (typed loading reached the planted structure); distinct by substitution";
